@@ -1006,14 +1006,14 @@ Qed.
 (* ---- lock discipline facts --------------------------------------------------------------------- *)
 Lemma check_lock_facts facts :
   flat_map (fun f =>
-    spec_if (lf_guarded f) (String.append "map field accessed without Lock(); defer Unlock() in " (lf_name f))
-    ++ spec_if (negb (lf_escapes f)) (String.append "guarded map or *ExchangeToPrice escapes from " (lf_name f))) facts = [] ->
+    diff_if (lf_guarded f) (String.append "map field accessed without Lock(); defer Unlock() in " (lf_name f))
+    ++ diff_if (negb (lf_escapes f)) (String.append "guarded map or *ExchangeToPrice escapes from " (lf_name f))) facts = [] ->
   forall f, In f facts -> lf_guarded f = true /\ lf_escapes f = false.
 Proof.
   induction facts as [|g t IH]; intros H1 f Hf; [destruct Hf|].
   cbn [flat_map] in H1. apply app_nil_both in H1. destruct H1 as [Hg Ht].
   destruct Hf as [<-|Hf]; [|apply IH; assumption].
-  apply app_nil_both in Hg. destruct Hg as [G1 G2]. apply spec_if_nil in G1, G2.
+  apply app_nil_both in Hg. destruct Hg as [G1 G2]. apply diff_if_nil in G1, G2.
   split; [exact G1 | apply negb_true_iff; exact G2].
 Qed.
 
